@@ -306,7 +306,7 @@ def check_case(ctx, ops, mode, rng, only_cuts=None):
 
 
 def run(ctx):
-    for i in ctx.cases(12000, 800000):
+    for i in ctx.cases(12000, 500000):
         rng = ctx.case_rng(i)
         r = i % 10
         if r < 4:
